@@ -107,6 +107,8 @@ func checkC16(p *core.Program, r *core.Report) {
 	r.Count("variable_index_sites", varIndexRule(p, r, fns, "R11", c16VarIndexAllowed))
 	r.Rule("R6", "in the generic-JSON migrations, every write into a map that comes from a discarded-ok assertion on decoded JSON (directly or through an accessor such as GetLanguageTranslation) is controlled by a nil / ok test")
 	c16R6(p, r, fns)
+	r.Rule("R12", "a truncation is decided by the value it cuts: where a call that truncates X to N characters (stringsx.Truncate, directly or through a local helper) is controlled by a length comparison, a comparison against N measures X itself, and a comparison of len(X) uses a bound of at most N")
+	c16R12(p, r, fns)
 	// R5
 	nP := 0
 	for _, fn := range fns {
@@ -1030,4 +1032,99 @@ func c16R10(p *core.Program, r *core.Report) {
 			"never writes "+strings.Join(missing, ", ")+" which actions."+target.Obj().Name()+" requires: the migrated flow is rejected when it is read")
 	}
 	r.Require("legacy_action_constructors", nCtor, 18)
+}
+
+// ---------------------------------------------------------------------------------------------- R12
+
+func c16R12(p *core.Program, r *core.Report, fns []*ssa.Function) {
+	// truncation helpers: functions whose result derives from stringsx.Truncate* of their own parameters
+	type helper struct{ text, limit int }
+	isTrunc := func(com *ssa.CallCommon) bool {
+		o := core.CalleeObj(com)
+		return o != nil && strings.HasPrefix(core.ObjName(o), "github.com/nyaruka/gocommon/stringsx.Truncate")
+	}
+	helpers := map[*ssa.Function]helper{}
+	for _, fn := range fns {
+		for _, cs := range core.Calls(fn, false) {
+			if !isTrunc(cs.Common()) || len(cs.Common().Args) < 2 {
+				continue
+			}
+			h := helper{-1, -1}
+			for i, prm := range fn.Params {
+				if core.StripConv(cs.Common().Args[0]) == ssa.Value(prm) {
+					h.text = i
+				}
+				if core.StripConv(cs.Common().Args[1]) == ssa.Value(prm) {
+					h.limit = i
+				}
+			}
+			if h.text >= 0 && h.limit >= 0 {
+				helpers[fn] = h
+			}
+		}
+	}
+	n := 0
+	per := map[string]int{}
+	for _, fn := range fns {
+		for _, cs := range core.Calls(fn, false) {
+			var text, limit ssa.Value
+			com := cs.Common()
+			if isTrunc(com) && len(com.Args) >= 2 {
+				text, limit = com.Args[0], com.Args[1]
+			} else {
+				g := com.StaticCallee()
+				if g == nil {
+					if mc, ok := derefLocal(com.Value).(*ssa.MakeClosure); ok {
+						g, _ = mc.Fn.(*ssa.Function)
+					}
+				}
+				if h, ok := helpers[g]; ok && h.text < len(com.Args) && h.limit < len(com.Args) {
+					text, limit = com.Args[h.text], com.Args[h.limit]
+				}
+			}
+			N, isC := int64(0), false
+			if limit != nil {
+				N, isC = core.ConstInt(limit)
+			}
+			if text == nil || !isC {
+				continue
+			}
+			n++
+			k := core.FuncName(rootFn(fn)) + "/truncate-to-" + fmt.Sprint(N)
+			per[k]++
+			key := k
+			if per[k] > 1 {
+				key = fmt.Sprintf("%s#%d", k, per[k])
+			}
+			bad := ""
+			guards := 0
+			for _, ce := range core.ControllingConds(cs.Instr.Block()) {
+				c, ok := ce.Cond.(*ssa.BinOp)
+				if !ok {
+					continue
+				}
+				measured, isLen := isLenCall(c.X)
+				kv := c.Y
+				if !isLen {
+					measured, isLen = isLenCall(c.Y)
+					kv = c.X
+				}
+				K, isK := core.ConstInt(kv)
+				if !isLen || !isK {
+					continue
+				}
+				same := sameSeq(measured, text)
+				switch {
+				case same && K <= N:
+					guards++
+				case same && K > N:
+					bad = fmt.Sprintf("the guard compares len(%s) with %d but the value is cut to %d: lengths in between are left too long", canonShort(text), K, N)
+				case !same && K == N:
+					bad = fmt.Sprintf("the guard measures %s but the truncation cuts %s: an over-long %s is kept whenever the other value is short", canonShort(measured), canonShort(text), canonShort(text))
+				}
+			}
+			r.Check(bad == "", "R12", key, p.Pos(cs.Pos()), fmt.Sprintf("%d length guard(s), each on the truncated value with a bound <= %d", guards, N), bad+" — the migrated definition then fails validation at the current version")
+		}
+	}
+	r.Require("truncation_sites", n, 4)
 }
